@@ -400,6 +400,8 @@ func NewWorld(p Profile) *World {
 	w.AddClient("B", "secret-B", false)
 	w.AddClient("P", "", true)
 	w.AddClient("I", "secret-I", false) // inspector: only introspects
+	w.AddClient("a", "secret-a-lower", false) // id differs from "A" only in letter case
+	w.AddClient("p", "", true)
 	w.Mem.Users["peter"] = storage.MemoryUserRelation{Username: "peter", Password: "pw-peter"}
 	return w
 }
